@@ -173,6 +173,11 @@ func runC11(c *Ctx) {
 			o2 := c.Run("c01.t1", args...)
 			c.Count(fmt.Sprintf("t1:blind%d", bi))
 			c.Direct(o1 == o2 && strings.HasPrefix(o1, "ok "), "type-1 issuance with a fixed blind is not reproducible", map[string]any{"blind": hx(blind), "first": o1, "second": o2})
+			// the token is the one of (key, challenge, nonce): it carries that nonce and verifies, whatever the caller did with its buffers since
+			if tb := unhx(strings.TrimPrefix(tokField(o1), "tok=")); strings.HasPrefix(o1, "ok ") {
+				c.Direct(len(tb) == 98+48 && bytes.Equal(tb[2:34], nonce) && bytes.Equal(tb[66:98], kid) && strings.Contains(o1, "verify=1"),
+					"type-1 token does not carry the request's nonce and key id or does not verify", map[string]any{"nonce": hx(nonce), "impl": o1})
+			}
 			toks = append(toks, tokField(o1))
 		}
 		c.Direct(allEq(toks), "type-1 token depends on the blind", map[string]any{"tokens": toks})
@@ -219,6 +224,41 @@ func runC11(c *Ctx) {
 			o := c.Run("c11.t2refuse", args...)
 			c.Count(fmt.Sprintf("t2:unusable-blind%d", bi))
 			c.Direct(o == "err-create", "a blind the key cannot use was not refused", map[string]any{"blind": hx(b2), "impl": o})
+		}
+		// salts of unusual length (empty, short, long): whatever the outcome is, it is the same under every blind
+		if i%5 == 0 {
+			for _, sl := range []int{0, 1, 47, 49, 64} {
+				osalt := r.Bytes(sl)
+				var outs []string
+				for bi := 0; bi < 2; bi++ {
+					b2 := r.Bytes(256)
+					b2[0] &= 0x3f
+					out := c.Op(fmt.Sprintf("c03.probe c11.t2salt %d %s %s", i%4, hx(osalt), hx(b2)), func() string {
+						iss := type2.NewBasicPublicIssuer(rk)
+						st, err := type2.NewBasicPublicClient().CreateTokenRequestWithBlind(append([]byte{}, challenge...), append([]byte{}, nonce...), iss.TokenKeyID(), iss.TokenKey(), b2, append([]byte{}, osalt...))
+						if err != nil {
+							outs = append(outs, "err-create")
+							return "-"
+						}
+						resp, err := iss.Evaluate(st.Request())
+						if err != nil {
+							outs = append(outs, "err-evaluate")
+							return "-"
+						}
+						t, err := st.FinalizeToken(resp)
+						if err != nil {
+							outs = append(outs, "err-finalize")
+							return "-"
+						}
+						outs = append(outs, "tok="+hxv(t.Marshal()))
+						return "-"
+					})
+					_ = out
+				}
+				c.Count(fmt.Sprintf("t2:salt-len-%d", sl))
+				c.Direct(len(outs) == 2 && outs[0] == outs[1], "type-2 outcome for one (key, challenge, nonce, salt) differs between two blinds",
+					map[string]any{"salt": hx(osalt), "outcomes": outs})
+			}
 		}
 		// type 5: two blind vectors
 		sk5 := oprfKey(oprf.SuiteRistretto255, keyseed)
